@@ -77,6 +77,26 @@ def succ_roles(g, node, label=None):
     return sorted({C.base(x) for x in g.succ(node, label)})
 
 
+def _subject_alternatives(f, o, b, depth=3):
+    """(origin, block whose guards apply) for each value the subject can take: a variable bound by
+    `let name = if all_slashes { Cow::Borrowed("/") } else { name };` stands for its two definitions, each under the
+    guards of the block that assigns it"""
+    leaf = o
+    while leaf.kids and (leaf.k in ("ref", "deref") or (leaf.k == "call" and leaf.a["name"] in ("deref", "as_ref", "borrow"))):
+        leaf = leaf.kids[0]
+    if depth > 0 and leaf.k == "var" and leaf.a.get("local") is not None and not leaf.a.get("is_arg") and leaf.a["local"] not in prim.mut_borrowed(f):
+        ds = prim.alternatives(f, leaf.a["local"])
+        if 1 < len(ds) <= 6:
+            out = []
+            for bb, od in ds:
+                s_ = od.strip()
+                if s_.k == "agg" and str(s_.a) in ("std::borrow::Cow::Borrowed", "std::borrow::Cow::Owned") and len(s_.kids) == 1:
+                    od = s_.kids[0]
+                out.extend(_subject_alternatives(f, od, bb, depth - 1))
+            return out
+    return [(o, b)]
+
+
 def run(ctx):
     prog = ctx.prog
     # ---- R1 subject and truth ---------------------------------------------------------------------------
@@ -109,23 +129,24 @@ def run(ctx):
                 po = prim.origin_of_operand(f, t.args[0]).strip()
                 io = prim.origin_of_operand(f, t.args[2]).strip() if len(t.args) > 2 else None
                 ctx.ob("R1", "own-pattern:%s" % short, po.k == "field" and po.a == "pattern" and io is not None and any(x.k == "arg" and x.a["name"] == "matcher_io" for x in io.walk()), "matches with %s, reporting through %s" % (po.fmt(), io.fmt() if io is not None else "?"), fn=f, where=prim.site(f, b), how="provenance slice", nontrivial=False)
-                so = o.strip()
-                if so.k == "const" and so.a.get("v") == "/":
-                    # basename of a root path: all-slash names are matched as "/"
-                    gs = prim.dominating_guards(f, b)
-                    ok = any(any(c.a["name"] == "all" for c in gd["pred"].call_nodes()) for gd in gs)
-                    ctx.ob("R1", "root-basename-special-case", ok, "the constant subject \"/\" may only be used for names consisting of slashes; guards %s" % prim.guards_fmt(gs), fn=f, where=prim.site(f, b), how="dominating guard")
-                    continue
-                names = [c.a["name"] for c in o.call_nodes()]
-                calls = [c.a["callee"] for c in o.call_nodes()]
-                if src == "file_name":
-                    ok_src = any(c == M + "entry::WalkEntry::file_name" for c in calls)
-                elif src == "path":
-                    ok_src = any(c == M + "entry::WalkEntry::path" for c in calls) and not any(n in ("file_name", "parent", "strip_prefix", "components") for n in names)
-                else:
-                    ok_src = any(c.endswith("lname::read_link_target") for c in calls)
-                bad = [n for n in names if n not in SUBJECT_ID and n not in ("file_name", "path", "read_link_target")]
-                ctx.ob("R1", "subject:%s" % short, ok_src and not bad, "%s matches against %s; oracle: %s through identity conversions (offending: %s)" % (short, o.fmt(), {"file_name": "the entry's last component (WalkEntry::file_name)", "path": "the whole path (WalkEntry::path)", "read_link": "the link's target text"}[src], bad), fn=f, where=prim.site(f, b), how="provenance slice + allow-list")
+                for o, gb in _subject_alternatives(f, o, b):
+                    so = o.strip()
+                    if so.k == "const" and so.a.get("v") == "/":
+                        # basename of a root path: all-slash names are matched as "/"
+                        gs = prim.dominating_guards(f, gb)
+                        ok = any(any(c.a["name"] == "all" for c in gd["pred"].call_nodes()) for gd in gs)
+                        ctx.ob("R1", "root-basename-special-case", ok, "the constant subject \"/\" may only be used for names consisting of slashes; guards %s" % prim.guards_fmt(gs), fn=f, where=prim.site(f, gb), how="dominating guard")
+                        continue
+                    names = [c.a["name"] for c in o.call_nodes()]
+                    calls = [c.a["callee"] for c in o.call_nodes()]
+                    if src == "file_name":
+                        ok_src = any(c == M + "entry::WalkEntry::file_name" for c in calls)
+                    elif src == "path":
+                        ok_src = any(c == M + "entry::WalkEntry::path" for c in calls) and not any(n in ("file_name", "parent", "strip_prefix", "components") for n in names)
+                    else:
+                        ok_src = any(c.endswith("lname::read_link_target") for c in calls)
+                    bad = [n for n in names if n not in SUBJECT_ID and n not in ("file_name", "path", "read_link_target")]
+                    ctx.ob("R1", "subject:%s" % short, ok_src and not bad, "%s matches against %s; oracle: %s through identity conversions (offending: %s)" % (short, o.fmt(), {"file_name": "the entry's last component (WalkEntry::file_name)", "path": "the whole path (WalkEntry::path)", "read_link": "the link's target text"}[src], bad), fn=f, where=prim.site(f, b), how="provenance slice + allow-list")
         ctx.floor("R1", "Pattern::matches_or_report sites in %s" % short, n_sub, 1)
     rl = ctx.fn("R1", M + "lname::read_link_target")
     if rl is not None:
